@@ -261,6 +261,14 @@ theorem prepBu_eq (A : AMat Int n) (hsym : ∀ i j, A.get i j = A.get j i)
     rcases h01 i j with h | h <;> simp [h]
   · rfl
 
+theorem degBd_eq_degIn (A : AMat Int n) (v : Fin n) : degBd A v = degInBd A univ v := by
+  unfold degBd degInBd
+  rw [sum_map_finRange, Finset.sum_add_distrib, Finset.card_filter, Finset.card_filter]
+
+theorem strWu_eq_strIn (A : AMat Rat n) (v : Fin n) : strWu A v = strIn A univ v := by
+  unfold strWu strIn
+  rw [sum_map_finRange]
+
 theorem degBu_eq_card (M : AMat Int n) (v : Fin n) :
     degBu M v = (univ.filter fun w => M.get w v ≠ 0).card := by
   unfold degBu
@@ -333,81 +341,74 @@ theorem coreness_max (A : AMat Int n) (hsym : ∀ i j, A.get i j = A.get j i)
     rw [coreOfBu_eq A hsym]
     exact hkn
 
-/-- **kcoreness_centrality_bd**, what the loop computes (0/1 matrix): for `k ≥ 1`, `k ≤ coreness[v]` iff
-some `k'` with `k ≤ k' < n` has `v` in its core *with an in-neighbour inside that core*.
+/-- with an empty diagonal, in+out degrees are at most `2(n-1)`: the `k`-core of a directed graph on `n` nodes is
+empty for `k ≥ 2n-1` — the scan `k = 0 … 2n-2` of `kcoreness_centrality_bd` is complete -/
+theorem coreOfBd_empty (A : AMat Int n) (hdiag : ∀ i, A.get i i = 0) (k : ℕ) (hk : 2 * n - 1 ≤ k) :
+    coreOfBd A k = ∅ := by
+  by_contra hne
+  obtain ⟨v, hv⟩ := Finset.nonempty_iff_ne_empty.mpr hne
+  have hn : 0 < n := Fin.pos v
+  have h := (kcore_bd_correct A k (by omega)).1.1 v hv
+  have hle : ∀ (p : Fin n → Prop) [DecidablePred p], ¬ p v →
+      ((coreOfBd A k).filter p).card ≤ n - 1 := by
+    intro p _ hp
+    have : (coreOfBd A k).filter p ⊆ univ.erase v := by
+      intro w hw
+      rw [Finset.mem_filter] at hw
+      rw [Finset.mem_erase]
+      refine ⟨?_, mem_univ _⟩
+      rintro rfl
+      exact hp hw.2
+    have hc := Finset.card_le_card this
+    rwa [Finset.card_erase_of_mem (mem_univ _), Finset.card_univ, Fintype.card_fin] at hc
+  have h1 := hle (fun w => A.get w v ≠ 0) (by simp [hdiag v])
+  have h2 := hle (fun w => A.get v w ≠ 0) (by simp [hdiag v])
+  unfold degInBd at h
+  omega
 
-This is weaker than the property ("largest k whose core contains v") in two ways, both real in
-`bct.kcoreness_centrality_bd` (known findings C15-bd-truncated, C15-bd-inonly): `k'` only ranges up to
-`n-1` although in+out degrees reach `2(n-1)`, and membership is tested by column sums (in-degree) only.
-The full statement under the two hypotheses that rule these out is `coreness_max_bd_of`. -/
-theorem coreness_bd_partial (A : AMat Int n) (h01 : ∀ i j, A.get i j = 0 ∨ A.get i j = 1) (v : Fin n)
-    (k : ℕ) (hk : 1 ≤ k) :
-    k ≤ (kcorenessBd A).1 v ↔
-      ∃ k', k ≤ k' ∧ k' < n ∧ v ∈ coreOfBd A k' ∧ ∃ w ∈ coreOfBd A k', A.get w v ≠ 0 := by
-  have hP : ∀ (k : ℕ), 1 ≤ k →
-      ((decide (k < n) && decide (0 < colSum (kcoreBd A k).M v)) = true ↔
-        (k < n ∧ v ∈ coreOfBd A k ∧ ∃ w ∈ coreOfBd A k, A.get w v ≠ 0)) := by
-    intro k hk
+/-- **kcoreness_centrality_bd** (0/1 matrix with empty diagonal, symmetric or not): `coreness[v]` is the largest
+`k` whose core contains `v` — for every `k ≥ 1`, `v` is in the `k`-core (in+out degree) iff `k ≤ coreness[v]` —,
+`kn[k]` is the size of the `k`-core for every `k = 0 … 2n-2`, and the `(2n-1)`-core is empty, so no core is missed. -/
+theorem coreness_max_bd (A : AMat Int n) (h01 : ∀ i j, A.get i j = 0 ∨ A.get i j = 1)
+    (hdiag : ∀ i, A.get i i = 0) :
+    (∀ v k, 1 ≤ k → (v ∈ coreOfBd A k ↔ k ≤ (kcorenessBd A).1 v)) ∧
+      (kcorenessBd A).2 = ((List.finRange (2 * n - 1)).map fun k => (coreOfBd A k.val).card) ∧
+      coreOfBd A (2 * n - 1) = ∅ := by
+  have hP : ∀ (v : Fin n) (k : ℕ), 1 ≤ k →
+      ((decide (k < 2 * n - 1) && decide (0 < colSum (kcoreBd A k).M v + rowSum (kcoreBd A k).M v)) = true ↔
+        (k < 2 * n - 1 ∧ v ∈ coreOfBd A k)) := by
+    intro v k hk
     have hr := (kcore_bd_correct A k hk).2.1
-    rw [colSum_eq_count _ (restricted_01 hr h01)]
-    simp only [Bool.and_eq_true, decide_eq_true_eq]
-    have : (0 : ℤ) < ((univ.filter fun w => (kcoreBd A k).M.get w v ≠ 0).card : ℤ) ↔
-        (v ∈ coreOfBd A k ∧ ∃ w ∈ coreOfBd A k, A.get w v ≠ 0) := by
-      rw [Int.natCast_pos, Finset.card_pos]
-      constructor
-      · rintro ⟨w, hw⟩
-        rw [Finset.mem_filter, hr w v] at hw
-        by_cases hc : w ∈ coreOfBd A k ∧ v ∈ coreOfBd A k
-        · rw [if_pos hc] at hw; exact ⟨hc.2, w, hc.1, hw.2⟩
-        · rw [if_neg hc] at hw; exact absurd rfl hw.2
-      · rintro ⟨hv, w, hw, hne⟩
-        refine ⟨w, ?_⟩
-        rw [Finset.mem_filter, hr w v, if_pos ⟨hw, hv⟩]
-        exact ⟨mem_univ _, hne⟩
-    rw [this]
-  unfold kcorenessBd
-  rw [corenessOf_fst]
-  set P := fun k => decide (k < n) && decide (0 < colSum (kcoreBd A k).M v) with hPdef
-  constructor
-  · intro hle
-    rcases lastHit_range_mem P n with h0 | ⟨_, hc⟩
-    · omega
-    · have hc1 : 1 ≤ lastHit P (List.range n) := by omega
-      obtain ⟨h1, h2, h3⟩ := (hP _ hc1).mp hc
-      exact ⟨_, hle, h1, h2, h3⟩
-  · rintro ⟨k', hkk, hk'n, hv, hw⟩
-    exact hkk.trans (lastHit_range_ge P n k' hk'n ((hP k' (hk.trans hkk)).mpr ⟨hk'n, hv, hw⟩))
-
-/-- `kn[k]` of **kcoreness_centrality_bd** is the size of the `k`-core for `k = 0 … n-1` -/
-theorem coreness_bd_kn (A : AMat Int n) :
-    (kcorenessBd A).2 = (List.finRange n).map fun k => (coreOfBd A k.val).card := by
-  unfold kcorenessBd
-  rw [corenessOf_snd]
-  apply List.map_congr_left
-  intro k _
-  obtain ⟨_, hkn, _⟩ := core_spec (bridgeBd A k.val)
-  rw [coreOfBd_eq A]
-  exact hkn
-
-/-- **kcoreness_centrality_bd** gives the largest `k` whose core contains `v` *provided* the `n`-core is
-empty and every member of every core has an in-neighbour inside it (e.g. symmetric input of
-maximal undirected coreness < n/2). -/
-theorem coreness_max_bd_of (A : AMat Int n) (h01 : ∀ i j, A.get i j = 0 ∨ A.get i j = 1)
-    (hN : coreOfBd A n = ∅)
-    (hin : ∀ k v, v ∈ coreOfBd A k → ∃ w ∈ coreOfBd A k, A.get w v ≠ 0) (v : Fin n) (k : ℕ) (hk : 1 ≤ k) :
-    v ∈ coreOfBd A k ↔ k ≤ (kcorenessBd A).1 v := by
-  rw [coreness_bd_partial A h01 v k hk]
-  constructor
-  · intro hv
-    have hkn : k < n := by
-      by_contra hnot
-      have hn : 1 ≤ n := Fin.pos v
-      have := (core_nested_bd A hn (not_lt.mp hnot)).1 hv
-      rw [hN] at this
-      exact absurd this (Finset.notMem_empty _)
-    exact ⟨k, le_refl _, hkn, hv, hin k v hv⟩
-  · rintro ⟨k', hkk, _, hv, _⟩
-    exact (core_nested_bd A hk hkk).1 hv
+    have hM := restricted_01 hr h01
+    rw [colSum_eq_count _ hM, rowSum_eq_count _ hM]
+    simp only [Bool.and_eq_true, decide_eq_true_eq, coreOfBd, mem_filter, mem_univ, true_and, degBd_eq_degIn, degInBd]
+    norm_cast
+  refine ⟨?_, ?_, coreOfBd_empty A hdiag _ (le_refl _)⟩
+  · intro v k hk
+    unfold kcorenessBd
+    rw [corenessOfBd_fst]
+    set P := fun k => decide (k < 2 * n - 1) && decide (0 < colSum (kcoreBd A k).M v + rowSum (kcoreBd A k).M v)
+      with hPdef
+    constructor
+    · intro hv
+      have hkn : k < 2 * n - 1 := by
+        by_contra hnot
+        rw [coreOfBd_empty A hdiag k (by omega)] at hv
+        exact absurd hv (Finset.notMem_empty _)
+      exact lastHit_range_ge P _ k hkn ((hP v k hk).mpr ⟨hkn, hv⟩)
+    · intro hle
+      rcases lastHit_range_mem P (2 * n - 1) with h0 | ⟨_, hc⟩
+      · omega
+      · have hc1 : 1 ≤ lastHit P (List.range (2 * n - 1)) := by omega
+        have := ((hP v _ hc1).mp hc).2
+        exact (core_nested_bd A hk hle).1 this
+  · unfold kcorenessBd
+    rw [corenessOfBd_snd]
+    apply List.map_congr_left
+    intro k _
+    obtain ⟨_, hkn, _⟩ := core_spec (bridgeBd A k.val)
+    rw [coreOfBd_eq A]
+    exact hkn
 
 /-! ## k = 0 and s ≤ 0
 
@@ -415,14 +416,6 @@ Every node set has minimum internal degree ≥ 0, so the "largest set" is the wh
 restricted matrix is the input itself: that is what the routines return (nothing is peeled).  The
 reported size, however, is by the code's convention `np.sum(deg > 0)` — the number of non-isolated nodes,
 not `n`; this is why the size clause of the property is stated (and judged) for `k ≥ 1` / `s > 0` only. -/
-
-theorem degBd_eq_degIn (A : AMat Int n) (v : Fin n) : degBd A v = degInBd A univ v := by
-  unfold degBd degInBd
-  rw [sum_map_finRange, Finset.sum_add_distrib, Finset.card_filter, Finset.card_filter]
-
-theorem strWu_eq_strIn (A : AMat Rat n) (v : Fin n) : strWu A v = strIn A univ v := by
-  unfold strWu strIn
-  rw [sum_map_finRange]
 
 theorem kcore_bu_zero (A : AMat Int n) :
     (kcoreBu A 0).M = A ∧ (kcoreBu A 0).order = [] ∧ (kcoreBu A 0).level = [] ∧
@@ -485,9 +478,9 @@ example : (List.finRange 4).map (kcorenessBu exA).1 = [1, 2, 2, 2] ∧ (kcorenes
   decide
 example : (kcoreBd exD 2).kn = 3 ∧ (kcoreBd exD 3).kn = 0 ∧ (kcoreBd exD 3).order = [[0], [1, 2]] ∧
     (kcoreBd exD 3).level = [[1], [2, 2]] := by decide
-/-- the in-degree-only membership test of the coreness loop is visible on `exD`: node 0 is in the
-2-core but gets coreness 0 -/
-example : (List.finRange 3).map (kcorenessBd exD).1 = [0, 2, 2] := by decide
+/-- node 0 of `exD` has out-connections only and belongs to the 2-core: coreness 2; `kn` has `2n-1 = 5` entries -/
+example : (List.finRange 3).map (kcorenessBd exD).1 = [2, 2, 2] ∧ (kcorenessBd exD).2 = [3, 3, 3, 0, 0] := by decide
+example : (∀ i j, exD.get i j = 0 ∨ exD.get i j = 1) ∧ (∀ i, exD.get i i = 0) := by decide
 example : (∀ i j, exW.get i j = exW.get j i) ∧ (∀ i j, 0 ≤ exW.get i j) := by decide +kernel
 example : (scoreWu exW (mkRat 7 4)).kn = 3 ∧ (scoreWu exW 2).kn = 0 ∧ (0 : ℚ) < mkRat 7 4 := by decide +kernel
 
